@@ -4,6 +4,7 @@ import Just.Model.Signals
 import Just.Model.Args
 import Just.Model.EnvExport
 import Just.Model.Channels
+import Just.Model.Define
 import Just.Model.Workdir
 import Just.Model.Search
 import Just.Model.Dotenv
@@ -49,6 +50,11 @@ end Just.Args
 namespace Just.EnvExport
 deriving instance FromJson, ToJson for Binding
 end Just.EnvExport
+
+namespace Just.Define
+deriving instance FromJson, ToJson for DKind
+deriving instance FromJson, ToJson for Def
+end Just.Define
 
 namespace Just.Channels
 deriving instance FromJson, ToJson for NParam
